@@ -246,30 +246,61 @@ def model_read(A: np.ndarray, key):
 # --------------------------------------------------------------------------
 
 
+# (round 4) how the caller presents a valid key / value: the integer dtype of subscript / index arrays and of numpy
+# integer scalars (key["dt"]), read-only and non-contiguous (strided) array views (key["mem"] / rhs["mem"]), float32
+# value arrays (rhs["f32"], integer-valued data only: exact in single precision), numpy scalar right-hand sides
+# (rhs["nps"]).  The request is the same; the answer must be the same.
+DTYPES = {"int64": np.int64, "int32": np.int32, "uint8": np.uint8, "uint16": np.uint16, "uint64": np.uint64,
+          "intp": np.intp, "float32": np.float32}
+
+
+def present(arr: np.ndarray, mem: Optional[str]) -> np.ndarray:
+    """the same array as a non-contiguous view of a larger one ('strided') and / or read-only ('ro')"""
+    if not mem:
+        return arr
+    if "strided" in mem and arr.ndim >= 1 and arr.size:
+        big = np.zeros((2 * arr.shape[0],) + arr.shape[1:], dtype=arr.dtype)
+        big[::2] = arr
+        arr = big[::2]
+    if "ro" in mem:
+        arr = arr.view()
+        arr.flags.writeable = False
+    return arr
+
+
+def _key_dtype(key, values) -> type:
+    dt = DTYPES.get(key.get("dt") or "", int)
+    if dt in (np.uint8, np.uint16, np.uint64) and any(int(v) < 0 for v in values):
+        return np.int32  # a negative index has no unsigned spelling
+    return dt
+
+
 def py_key(key):
     f = key["f"]
+    mem = key.get("mem")
     if f == "tuple":
         out = []
         for e in key["k"]:
             k = elem_kind(e)
             if k == "int":
-                out.append(np.int64(e) if key.get("np") else int(e))
+                out.append(_key_dtype(key, [e])(e) if key.get("np") else int(e))
             elif k == "slice":
                 out.append(slice_of(e))
             elif k == "list":
                 out.append([int(i) for i in e["l"]])
             else:
-                out.append(np.array(e["a"], dtype=int))
+                out.append(present(np.array(e["a"], dtype=_key_dtype(key, e["a"])), mem))
         return tuple(out)
     if f == "subs":
         rows = key["rows"]
-        return np.array(rows, dtype=int).reshape(len(rows), len(rows[0]) if rows else int(key["ncols"]))
+        dt = _key_dtype(key, [i for r in rows for i in r])
+        return present(np.array(rows, dtype=dt).reshape(len(rows), len(rows[0]) if rows else int(key["ncols"])), mem)
     if f == "lin":
-        return int(key["i"])
+        return _key_dtype(key, [key["i"]])(key["i"]) if key.get("np") else int(key["i"])
     if f == "linlist":
         return [int(i) for i in key["i"]]
     if f == "linarr":
-        return np.array(key["i"], dtype=int)
+        return present(np.array(key["i"], dtype=_key_dtype(key, key["i"])), mem)
     if f == "linslice":
         return slice_of(key)
     raise ValueError(f)
@@ -282,21 +313,24 @@ def arr_F(shape, data) -> np.ndarray:
 def py_rhs(rhs, holder: str, region_shape: Optional[Sequence[int]] = None):
     """Right-hand side object in the form documented for ``holder`` ('T' dense, 'S' sparse)."""
     r = rhs["r"]
+    mem = rhs.get("mem")
     if r == "scalar":
+        if rhs.get("nps"):
+            return DTYPES[rhs["nps"]](rhs["v"])  # a numpy scalar (integer-valued: exact in every type used)
         if rhs.get("int"):
             return int(rhs["v"])
         return np.float64(rhs["v"]) if rhs.get("np") else float(rhs["v"])
-    dt = np.int64 if rhs.get("idt") else float
+    dt = np.int64 if rhs.get("idt") else (np.float32 if rhs.get("f32") else float)
     if r == "vec":
         v = np.array(rhs["v"], dtype=float).astype(dt)
         if holder == "S":
-            return v.reshape(-1, 1)
-        return [x.item() for x in v] if rhs.get("as") == "list" else v
+            return present(v.reshape(-1, 1), mem)
+        return [x.item() for x in v] if rhs.get("as") == "list" else present(v, mem)
     if r == "array":
         A = arr_F(region_shape, rhs["v"])
         if holder == "T":
             B = np.array(A, order="F").astype(dt, order="F")
-            return ttb.tensor(B, tuple(region_shape)) if rhs.get("as") == "tensor" else B
+            return ttb.tensor(B, tuple(region_shape)) if rhs.get("as") == "tensor" else present(B, mem)
         nz = [(list(s), float(A[s])) for s in _subs_F(A.shape) if A[s] != 0]
         if rhs.get("sp") == "reverse":
             nz = nz[::-1]
@@ -443,12 +477,21 @@ def sparse_tags(op: str, shape: Sequence[int], key, rhs, stored_subs: np.ndarray
     tags = []
     f = key["f"]
     nstored = 0 if stored_subs is None or np.size(stored_subs) == 0 else int(np.shape(stored_subs)[0])
+    if (op == "write" and f == "tuple" and key.get("dt") in ("uint8", "uint16", "uint64")
+            and ((key.get("np") and any(is_int(e) for e in key["k"])) or any(elem_kind(e) == "arr" for e in key["k"]))
+            and list(grown_shape(shape, key)) != list(shape)):
+        # (round 4) growth through an unsigned numpy scalar / unsigned index array leaves an unsigned entry in S.shape
+        tags.append("unsigned-key-growth")
     if op == "read":
         if f == "tuple" and any(elem_kind(e) == "arr" and len(e["a"]) >= 2 for e in key["k"]):
             tags.append("ndarray-list-read")
         return tags
     if f == "subs" and not key["rows"]:
         return ["empty-subs"]
+    if rhs is not None and rhs["r"] == "scalar" and rhs.get("nps"):
+        tags.append("np-scalar-rhs")  # (round 4) numpy integer / float32 scalars are refused by sptensor assignments
+    if f == "subs" and key.get("dt") == "uint64" and all(i >= 0 for r in key["rows"] for i in r):
+        tags.append("uint64-subs")  # (round 4) unsigned 64-bit subscripts end up in a float64 subs array
     if f == "tuple" and has_empty_list(key):
         tags.append("empty-list")
     if f == "subs":
